@@ -80,7 +80,11 @@ def observe(c, lazy=False):
           "segmented_unit": True, "annular_reused": [], "segmented_reused": [], "split_low": [], "split_high": [], "pattern_low": [], "pattern_high": [], "flex_bins": [], "flex_prefix": [], "flex_offset": c["inner"], "flex_width": c["step"]}
     try:
         w = onehot_waves(n, lazy)
-        ev["annular"], ev["annular_unit"] = decode(abtem.AnnularDetector(inner=inner, outer=outer).detect(w))
+        import zlib
+        from ..routes import reroute
+        r = zlib.crc32(json.dumps(c, sort_keys=True, default=str).encode())
+        via = lambda det, k: reroute(det, r + k)[0]          # detectors reach detect() through a copy / deepcopy / pickle round trip
+        ev["annular"], ev["annular_unit"] = decode(via(abtem.AnnularDetector(inner=inner, outer=outer), 0).detect(w))
         dp = w.diffraction_patterns(max_angle=None, fftshift=(n % 2 == 0))
         ev["integrate_radial"], ev["integrate_unit"] = decode(dp.integrate_radial(inner, outer))
         ev["pattern_low"], _ = decode(dp.integrate_radial(inner, mid))          # the same pattern object again
@@ -88,7 +92,7 @@ def observe(c, lazy=False):
         ev["split_low"], _ = decode(abtem.AnnularDetector(inner=inner, outer=mid).detect(w))
         ev["split_high"], _ = decode(abtem.AnnularDetector(inner=mid, outer=outer).detect(w))
         nr, na = c["segs"]
-        seg = abtem.SegmentedDetector(inner=inner, outer=outer, nbins_radial=nr, nbins_azimuthal=na, rotation=0.3).detect(w)
+        seg = via(abtem.SegmentedDetector(inner=inner, outer=outer, nbins_radial=nr, nbins_azimuthal=na, rotation=0.3), 1).detect(w)
         ev["segmented_sum"], ev["segmented_unit"] = decode(seg)
         # detector objects have histories: the same limits, but the object has already detected wave functions of the same gpts on a
         # grid of another extent (another angular sampling) - eagerly, so whatever it keeps is really there
@@ -100,7 +104,7 @@ def observe(c, lazy=False):
         worn.detect(other)
         ev["segmented_reused"], _ = decode(worn.detect(w))
         try:
-            flex = abtem.FlexibleAnnularDetector(step_size=step, inner=inner).detect(w)
+            flex = via(abtem.FlexibleAnnularDetector(step_size=step, inner=inner), 2).detect(w)
         except RuntimeError as ex:
             if "number of bins" in str(ex):
                 return ev          # the simulated range leaves no room for one bin of this step: nothing to check
